@@ -99,7 +99,8 @@ class Check:
         poses = poses + extra
         dips = [-60.0, 0.0, 45.0, 66.0, 80.0] if tier == 'quick' else [-80.0, -60.0, -30.0, 0.0, 25.0, 45.0, 60.0, 66.0, 80.0]
         cons = []
-        for k, vs in (('oleq', [{'frame': 'NED'}, {'frame': 'ENU'}, {'frame': 'NED', 'weights': [100.0, 100.0]}, {'frame': 'ENU', 'weights': [1.0, 25.0]}]), ('flae', [{'method': 'symbolic'}, {'method': 'eig'}, {'method': 'newton'}]),
+        for k, vs in (('oleq', [{'frame': 'NED'}, {'frame': 'ENU'}, {'frame': 'NED', 'weights': [100.0, 100.0]}, {'frame': 'ENU', 'weights': [1.0, 25.0]},
+                               {'frame': 'NED', 'weights': [0.5, 0.5]}, {'frame': 'ENU', 'weights': [0.3, 0.7]}]),      # ... and weights that sum to one ('flae', [{'method': 'symbolic'}, {'method': 'eig'}, {'method': 'newton'}]),
                       ('tilt', [{'representation': 'quaternion'}, {'representation': 'rotmat'}]), ('tilt_acc', [{'representation': 'angles'}]),
                       ('saam', [{}]), ('famc', [{}]), ('fqa', [{}]), ('quest', [{}, {'weights': [1.2, 0.6]}]), ('davenport', [{}]),
                       ('triad', [{'frame': 'NED', 'representation': 'quaternion'}, {'frame': 'ENU', 'representation': 'rotmat'}]), ('aqua_alg', [{}])):
@@ -162,6 +163,8 @@ class Check:
             consumers.append({'kind': kind, 'params': C.gen_params(rnd, kind)})
             if rnd.random() < 0.2 and C.KINDS[kind].streaming:
                 consumers[-1]['reuse_buffers'] = True        # driver-style application: one set of sample buffers
+            if rnd.random() < 0.12:
+                consumers[-1]['int_am'] = True              # accelerometer / magnetometer logged as raw integer counts
             if rnd.random() < 0.2 and len(consumers) < 7:
                 # a second object of the same class, configured differently, in the same process
                 consumers.append({'kind': kind, 'params': C.gen_params(rnd, kind)})
@@ -184,11 +187,15 @@ class Check:
 
         clean_pose = noise_free and any(not (hist.fault_mask[k] & ~32) for k in pose_ticks)
 
+        # "slow sampling" = a large rotation per sample somewhere in the history: a slow logger, or a gyroscope glitch that
+        # announces more than a radian per step
+        big_steps = hist.dt >= 0.1 or float(np.max(np.linalg.norm(hist.gyr, axis=1))) * hist.dt > 1.0
+
         def trigger_at(t, k):
             """Trigger class of a violation: what is special about the input at that tick.
             Single-frame estimators: features of the (acc, mag) pair itself; recursive filters: the pose label."""
             if not t.kind.recursive:
-                a, m = hist.acc[t.key], hist.mag[t.key]
+                a, m = handed(t)
                 if k is None:
                     feats = sorted({axis_feature(a[i]) for i in range(hist.n)} - {'generic'})
                     if noise_free and any(float(np.min(np.abs(hist.truth[i]))) < 1e-9 for i in range(hist.n)):
@@ -205,12 +212,24 @@ class Check:
                 return f"acc:{af}|mag:{zero_feature(m[k])}|{'exact' if exact else 'perturbed'}"
             if k is None:
                 # a batch constructor that raised does not say at which row: say whether exact poses were in the history
-                return ('slow-sampling:' if hist.dt >= 0.1 else '') + ('history-with-exact-pose' if clean_pose else 'generic')
-            slow = 'slow-sampling:' if hist.dt >= 0.1 else ''
+                return ('slow-sampling:' if big_steps else '') + ('history-with-exact-pose' if clean_pose else 'generic')
+            slow = 'slow-sampling:' if big_steps else ''
             lab = hist.labels[k] if k < len(hist.labels) else ''
             if lab.startswith('pose:') and noise_free and not (hist.fault_mask[k] & ~32):
                 return slow + lab
             return slow + 'generic'
+
+        _handed = {}
+
+        def handed(t):
+            """The accelerometer / magnetometer arrays this task is actually given (integer counts for 'int_am' tasks)."""
+            if t.idx not in _handed:
+                a, m = hist.acc[t.key], hist.mag[t.key]
+                if t.spec.get('int_am'):
+                    ia, im = K.int_counts(a), K.int_counts(m)
+                    a, m = (a if ia is None else ia), (m if im is None else im)
+                _handed[t.idx] = (a, m)
+            return _handed[t.idx]
 
         def antipodal(t, k, prev):
             """True when the attitude the filter held before sample k predicts gravity (almost) exactly opposite to the
@@ -227,8 +246,40 @@ class Check:
                     return True
                 # ... or a half-turn away from the sensed attitude altogether (e.g. heading error of exactly 180 degrees)
                 target = qm.qconj(hist.truth[k]) if t.kind.conj else hist.truth[k]
-                return qm.rot_angle(prev, target) > math.radians(179.0)
-            except Exception:       # noqa: BLE001
+                if qm.rot_angle(prev, target) > math.radians(179.0):
+                    return True
+                if t.kind.name in ('aqua_marg', 'aqua_imu'):
+                    # AQUA corrects the tilt only partly (gain alpha) before it looks at the magnetometer, so "exactly opposite
+                    # in heading" has to be judged in *its* intermediate frame: eqs. 44-54 re-done here (own arithmetic) only to
+                    # say whether the sample falls on the 0/0 of eq. 47 (gz = -1) or eq. 58 (ly = 0, lx < 0)
+                    gk = np.asarray(hist.gyr[k], dtype=float)
+                    qi = qm.qnorm(prev - 0.5 * t.dt_eff * qm.qmul(np.r_[0.0, gk], prev)) if np.any(gk) else prev       # AQUA's Omega(w) q
+                    a_ = np.asarray(hist.acc[t.key][k], dtype=float)
+                    gx, gy, gz = qm.q2R(qi).T @ (a_ / np.linalg.norm(a_))
+                    if gz + 1.0 < 1e-12:
+                        return True
+                    if t.kind.name == 'aqua_marg':
+                        qa = np.array([math.sqrt((gz + 1) / 2), -gy / math.sqrt(2 * (gz + 1)), gx / math.sqrt(2 * (gz + 1)), 0.0])
+                        alpha = float(getattr(t.inst, 'alpha', 0.01)) if getattr(t, 'inst', None) is not None else float(t.p.get('alpha', 0.01))
+                        qa = qm.qnorm((1 - alpha) * np.array([1.0, 0, 0, 0]) + alpha * qa)      # close enough to slerp_I for a frame estimate
+                        m_ = np.asarray(hist.mag[t.key][k], dtype=float)
+                        lx, ly, _ = qm.q2R(qm.qnorm(qm.qmul(qi, qa))).T @ (m_ / np.linalg.norm(m_))
+                        if lx < 0 and abs(ly) < 1e-7 * abs(lx):
+                            return True
+                # ... or exactly opposite in heading once the tilt is taken out: the twist of the attitude error about the
+                # vertical (swing-twist decomposition) is a half-turn
+                if 'm' in t.kind.sensors:
+                    av = np.array(a_ref, dtype=float)
+                    am = np.asarray(hist.acc[t.key][k], dtype=float)
+                    u = (av / np.linalg.norm(av)) if t.kind.conj else (am / np.linalg.norm(am))
+                    E = qm.qmul(qm.qconj(target), prev)
+                    twist = 2.0 * math.atan2(abs(float(E[1:] @ u)), abs(float(E[0])))
+                    return twist > math.radians(179.0)
+                return False
+            except Exception as e:       # noqa: BLE001
+                import os
+                if os.environ.get('AHRS_SIM_DEBUG'):
+                    import traceback; traceback.print_exc()
                 return False
 
         def v(t, symptom, k, detail, arch, prev=None):
@@ -258,6 +309,15 @@ class Check:
                     if t.kind.recursive:
                         carried = max(carried, t.pos - t.first)
                     for k in range(t.first, hist.n):
+                        raw = t.raw[k] if k < len(t.raw) else None
+                        if isinstance(raw, np.ndarray) and isinstance(t.out[k], np.ndarray) and raw.shape == t.out[k].shape \
+                                and not np.array_equal(np.asarray(raw), t.out[k], equal_nan=True):
+                            # the application kept the object it was handed at tick k: a later call changed it
+                            d = CM.attitude_defect(np.array(raw, dtype=float), rep_s, UNIT_TOL)
+                            if d is not None:
+                                viol.append(v(t, 'kept-attitude-' + CM.defect_class(d), k, f'the attitude object returned at tick {k} was valid then and is {d} at the end of the run: {np.array2string(np.asarray(raw), precision=6)} (a later call wrote into it)', 'stream'))
+                                break
+                    for k in range(t.first, hist.n):
                         o = t.out[k]
                         if isinstance(o, K.Refusal):
                             viol.append(v(t, 'crash:ValueError', k, f'tick {k}: ValueError on a well-formed sample: {o.msg}', 'stream'))
@@ -267,7 +327,7 @@ class Check:
                             break
                         d = CM.attitude_defect(o, rep_s, UNIT_TOL)
                         if d is not None:
-                            viol.append(v(t, CM.defect_class(d), k, f'tick {k}: output {d}: {np.array2string(np.asarray(o), precision=6, threshold=12)} for acc={self._row(hist.acc[t.key], k)} mag={self._row(hist.mag[t.key], k)}', 'stream',
+                            viol.append(v(t, CM.defect_class(d), k, f'tick {k}: output {d}: {np.array2string(np.asarray(o), precision=6, threshold=12)} for acc={self._row(handed(t)[0], k)} mag={self._row(handed(t)[1], k)}', 'stream',
                                           prev=(t.out[k - 1] if k >= 1 and isinstance(t.out[k - 1], np.ndarray) else None)))
                             break
             # batch constructor on a private copy of the same history
@@ -275,7 +335,7 @@ class Check:
             p = dict(t.spec.get('params', {}))
             if t.kind.q0_route == 'q0' and 'q0' not in p and t.kind.recursive and t.idx % 2 == 0:
                 pass        # leave the class's own initialisation from the first sample in play half of the time
-            res, obj = K.run_batch(t.kind, p, hist.dt, dip, hist.gyr.copy(), hist.acc[t.key].copy(), hist.mag[t.key].copy())
+            res, obj = K.run_batch(t.kind, p, hist.dt, dip, hist.gyr.copy(), handed(t)[0].copy(), handed(t)[1].copy())
             if isinstance(res, K.Refusal):
                 viol.append(v(t, 'crash:ValueError', None, f'batch constructor raised ValueError on a well-formed history: {res.msg}', 'batch'))
             elif isinstance(res, K.Crash):
@@ -291,7 +351,7 @@ class Check:
                         for k in range(hist.n):
                             d = CM.attitude_defect(res[k], rep, UNIT_TOL)
                             if d is not None:
-                                viol.append(v(t, CM.defect_class(d), k, f'row {k}: {d}: {np.array2string(np.asarray(res[k]), precision=6, threshold=12)} for acc={self._row(hist.acc[t.key], k)} mag={self._row(hist.mag[t.key], k)}', 'batch',
+                                viol.append(v(t, CM.defect_class(d), k, f'row {k}: {d}: {np.array2string(np.asarray(res[k]), precision=6, threshold=12)} for acc={self._row(handed(t)[0], k)} mag={self._row(handed(t)[1], k)}', 'batch',
                                               prev=(res[k - 1] if k >= 1 and rep == 'quaternion' else None)))
                                 break
         pipe.log.add('viol', [(x['component'], x['symptom'], x['step']) for x in viol])
